@@ -14,6 +14,7 @@ import (
 	"regexp"
 	"sort"
 	"strconv"
+	"strings"
 
 	"golang.org/x/tools/go/packages"
 
@@ -48,8 +49,8 @@ type HandlerSite struct {
 	Full     bool // result offset kept (HANDLER_FULL) or discarded (HANDLER_SIMPLE)
 	Method   *types.Func
 	Call     *ast.CallExpr
-	PP       types.Object // variable receiving the offset (Full only)
-	ErrRetOK bool         // `if err != nil { return …, err }` follows immediately, returning the call's own error variable
+	PP       types.Object   // variable receiving the offset (Full only)
+	ErrRetOK bool           // `if err != nil { return …, err }` follows immediately, returning the call's own error variable
 	KeyLo    *linarith.Form // object machines: lower/upper bound of the key slice data[lo:hi]
 	KeyHi    *linarith.Form
 	KeyLoSym string // name of the mark variable in KeyLo
@@ -92,13 +93,13 @@ type FCallSite struct {
 
 // SpliceSite is a call of a hand-written number-tail scanner.
 type SpliceSite struct {
-	Label  string
-	Pos    token.Pos
-	Helper *types.Func
-	Start  linarith.Form // start argument as a form over the cursor ("p")
-	EndIsPE bool
+	Label      string
+	Pos        token.Pos
+	Helper     *types.Func
+	Start      linarith.Form // start argument as a form over the cursor ("p")
+	EndIsPE    bool
 	DataIsData bool
-	To     int
+	To         int
 }
 
 // UnescSite is a call of the \u helper.
@@ -180,6 +181,7 @@ type extractor struct {
 	eofCases map[int]*action
 	start    int
 	curLabel string
+	aliases  map[types.Object]ast.Expr // if-scoped locals standing for an expression (if n := len(stack); …)
 }
 
 // action is a parsed trN body / EOF clause.
@@ -436,6 +438,9 @@ func (x *extractor) checkPrologue(stmts []ast.Stmt) {
 			init[o] = "zero"
 		case x.isLenOf(rhs, r.Data):
 			init[o] = "len"
+		case x.obj(rhs) != nil && init[x.obj(rhs)] != "" && init[x.obj(rhs)] != "pregrow":
+			// copy of a variable initialised just before (eof := pe)
+			init[o] = init[x.obj(rhs)]
 		default:
 			if v, ok := x.constInt(rhs); ok {
 				init[o] = fmt.Sprintf("const:%d", v)
@@ -555,6 +560,31 @@ func (x *extractor) calleeFunc(c *ast.CallExpr) *types.Func {
 // checkEpilogue: after the exec block the function returns the cursor itself, plus stack/err/dst/val.
 func (x *extractor) checkEpilogue(stmts []ast.Stmt) {
 	r := x.m.Roles
+	// leading `if err != nil { return …, err }` guards: the same results the final return would give when err is set
+	guarded := false
+	for len(stmts) > 1 {
+		ifs, ok := stmts[0].(*ast.IfStmt)
+		if !ok || ifs.Init != nil || ifs.Else != nil || r.Err == nil || len(ifs.Body.List) != 1 {
+			break
+		}
+		be, ok := ast.Unparen(ifs.Cond).(*ast.BinaryExpr)
+		if !ok || be.Op != token.NEQ || x.obj(be.X) != r.Err || !x.isNil(be.Y) {
+			break
+		}
+		gret, ok := ifs.Body.List[0].(*ast.ReturnStmt)
+		if !ok {
+			break
+		}
+		shape, sawP := x.returnShape(gret)
+		if !sawP {
+			x.problem(gret.Pos(), "epilogue", "the guarded return does not return the cursor variable itself")
+		}
+		if !strings.Contains(shape, "err,") {
+			x.problem(gret.Pos(), "epilogue", "the return taken when err is set does not return err")
+		}
+		guarded = true
+		stmts = stmts[1:]
+	}
 	if len(stmts) != 1 {
 		x.problem(x.m.Decl.Pos(), "epilogue", "expected exactly one return statement after the machine, found %d statements", len(stmts))
 		return
@@ -564,8 +594,31 @@ func (x *extractor) checkEpilogue(stmts []ast.Stmt) {
 		x.problem(stmts[0].Pos(), "epilogue", "statement after the machine is not a return")
 		return
 	}
-	sawP := false
-	shape := ""
+	shape, sawP := x.returnShape(ret)
+	if !sawP {
+		x.problem(ret.Pos(), "epilogue", "the final return does not return the cursor variable itself")
+	}
+	if guarded {
+		// behind the guard err is nil, so a literal nil in its place is the same result
+		shape = strings.Replace(shape, "nil,", "err,", 1)
+	}
+	if r.Err != nil && !strings.Contains(shape, "err,") {
+		x.problem(ret.Pos(), "epilogue", "the final return does not return err: an error set by an action would be dropped")
+	}
+	x.m.Returns = shape
+}
+
+func (x *extractor) isNil(e ast.Expr) bool {
+	id, ok := ast.Unparen(e).(*ast.Ident)
+	if !ok {
+		return false
+	}
+	_, isNil := x.info.Uses[id].(*types.Nil)
+	return isNil
+}
+
+func (x *extractor) returnShape(ret *ast.ReturnStmt) (shape string, sawP bool) {
+	r := x.m.Roles
 	for _, res := range ret.Results {
 		o := x.obj(res)
 		switch {
@@ -585,10 +638,7 @@ func (x *extractor) checkEpilogue(stmts []ast.Stmt) {
 			shape += "?,"
 		}
 	}
-	if !sawP {
-		x.problem(ret.Pos(), "epilogue", "the final return does not return the cursor variable itself")
-	}
-	x.m.Returns = shape
+	return
 }
 
 // checkScaffold verifies the identities of the generated dispatch code.
